@@ -4,7 +4,7 @@ CONSTANTS
   NpgSet = {1, 2, 3}
   Dims = {2, 3}
   MaxRank = 4
-  Ops = {"matmul", "dot", "ddot"}
+  Ops = {"matmul", "dot", "ddot", "tensorprod"}
   Emit = TRUE
 INVARIANT TypeRule
 INVARIANT EmitOK
